@@ -233,19 +233,32 @@ def payload(node):
     return s
 
 
+# where the formula stands: in running text, or directly after a command / at the start of an environment whose last declared
+# argument is an optional one the author did not give (the scanner looks ahead for `[` there -- \[ is not one)
+SURROUND = ['%s', '%s', '%s', '\\begin{itemize}\\item %s\\end{itemize}', '\\begin{enumerate}\\item %s \\end{enumerate}', '\\nopagebreak %s',
+            '\\linebreak %s', '\\begin{quote}%s\\end{quote}', '\\begin{center}%s\\end{center}']
+
+
+def formula_in_text(case):
+    w, wrap = case['written'], case['wrap']
+    if wrap == '$':
+        f, tag = '$%s$' % w, 'math'
+    elif wrap == '\\(':
+        f, tag = '\\(%s\\)' % w, 'math'
+    elif wrap == '\\[':
+        f, tag = '\\[ %s \\]' % w, 'displaymath'
+    elif wrap == 'equation':
+        f, tag = '\\begin{equation} %s \\end{equation}' % w, 'equation'
+    else:
+        return 'Wq1x \\textbf{Wq3x $%s$ Wq4x} \\emph{Wq5x} Wq2x' % w, 'math'
+    sur = SURROUND[common.case_hash(case)[3] % len(SURROUND)]
+    return 'Wq1x ' + (sur % f) + ' Wq2x', tag
+
+
 def math_source(case):
     w, wrap = case['written'], case['wrap']
     pre = mathgen.preamble()
-    if wrap == '$':
-        body, tag = 'Wq1x $%s$ Wq2x' % w, 'math'
-    elif wrap == '\\(':
-        body, tag = 'Wq1x \\(%s\\) Wq2x' % w, 'math'
-    elif wrap == '\\[':
-        body, tag = 'Wq1x \\[ %s \\] Wq2x' % w, 'displaymath'
-    elif wrap == 'equation':
-        body, tag = 'Wq1x \\begin{equation} %s \\end{equation} Wq2x' % w, 'equation'
-    else:
-        body, tag = 'Wq1x \\textbf{Wq3x $%s$ Wq4x} \\emph{Wq5x} Wq2x' % w, 'math'
+    body, tag = formula_in_text(case)
     return '\\documentclass{article}\\usepackage{amsmath}\n%s\\begin{document}%s\n\\end{document}' % (pre, body), tag
 
 
@@ -326,16 +339,7 @@ def run_handover(case, st):
 def run_math(case, st):
     w, e, wrap = case['written'], case['expanded'], case['wrap']
     pre = mathgen.preamble()
-    if wrap == '$':
-        body, tag = 'Wq1x $%s$ Wq2x' % w, 'math'
-    elif wrap == '\\(':
-        body, tag = 'Wq1x \\(%s\\) Wq2x' % w, 'math'
-    elif wrap == '\\[':
-        body, tag = 'Wq1x \\[ %s \\] Wq2x' % w, 'displaymath'
-    elif wrap == 'equation':
-        body, tag = 'Wq1x \\begin{equation} %s \\end{equation} Wq2x' % w, 'equation'
-    else:
-        body, tag = 'Wq1x \\textbf{Wq3x $%s$ Wq4x} \\emph{Wq5x} Wq2x' % w, 'math'
+    body, tag = formula_in_text(case)
     src = '\\documentclass{article}\\usepackage{amsmath}\n%s\\begin{document}%s\n\\end{document}' % (pre, body)
     st.counters['formulas'] += 1
     for f in case['features']:
